@@ -196,11 +196,14 @@ theorem Run.white {top : PS} {below S' : List PS} {rest : List Char} {O : List (
   obtain ⟨k, hk, r⟩ := h
   exact ⟨k, hk, fun f => by rw [ro_white top below htop hw hx]; exact r f⟩
 
+/-- What follows a value inside a body (after spaces): a separator, a closing delimiter, a colon or a new line. -/
+def RecEnd (rest : List Char) : Prop :=
+  ∃ x xs, skipSpaces rest = x :: xs ∧ (x = ',' ∨ x = ')' ∨ x = '}' ∨ x = ':' ∨ x = '\n')
+
 /-- Induction hypothesis (all layouts), in the shape of C09's `IHs`. -/
 structure RH (n : Nat) : Prop where
   elem : ∀ v : Value, v.size ≤ n → v.wf = true → v ≠ .extant → ∀ (st : Style) (i : Nat) (cur : PS) (below : List PS)
-      (rest : List Char), ItemStart cur → TokEnd rest → rest ≠ [] →
-      (isBareAttr v = true → endsRecord (skipSpaces rest) = true) →
+      (rest : List Char), ItemStart cur → TokEnd rest → rest ≠ [] → RecEnd rest →
       ∃ rest', skipSpaces rest' = skipSpaces rest ∧
         Run (cur :: below) (printV st i v ++ rest) (obsV v) (afterOf cur :: below) rest' (4 * v.size)
   items : ∀ its : Items, its.size ≤ n → its.wf = true → ∀ (st : Style) (k : Kind) (j i : Nat) (br : Bool)
@@ -252,18 +255,23 @@ theorem after_item (slotOk : Bool) {x : List Char}
 theorem tail_facts :
     TokEnd (printItems st j i false br r ++ (e ++ k.close :: rest)) ∧
     printItems st j i false br r ++ (e ++ k.close :: rest) ≠ [] ∧
-    endsRecord (skipSpaces (printItems st j i false br r ++ (e ++ k.close :: rest))) = true := by
+    RecEnd (printItems st j i false br r ++ (e ++ k.close :: rest)) := by
   rw [printItems_notFirst']
   cases r with
   | nil =>
-    obtain ⟨h1, h2⟩ := end_follow k he rest
-    exact ⟨by simpa using h1, by simp, by simpa using h2⟩
+    obtain ⟨h1, _⟩ := end_follow k he rest
+    refine ⟨by simpa using h1, by simp, ?_⟩
+    simp only [List.nil_append]
+    rcases he with hsp | ⟨s, rfl, hsp⟩
+    · refine ⟨k.close, rest, by rw [skipSpaces_spaces hsp, skipSpaces_close], ?_⟩
+      cases k <;> simp [Kind.close]
+    · exact ⟨'\n', s ++ k.close :: rest, by simp [skipSpaces_cons (show isSpace '\n' = false by decide)], by simp⟩
   | val v r' =>
     exact ⟨by intro c hc; simp at hc; subst hc; decide, by simp,
-      by simp [skipSpaces_cons (show isSpace ',' = false by decide), endsRecord, sep_comma]⟩
+      ⟨',', _, by simp [skipSpaces_cons (show isSpace ',' = false by decide)]; rfl, by simp⟩⟩
   | slot k' v r' =>
     exact ⟨by intro c hc; simp at hc; subst hc; decide, by simp,
-      by simp [skipSpaces_cons (show isSpace ',' = false by decide), endsRecord, sep_comma]⟩
+      ⟨',', _, by simp [skipSpaces_cons (show isSpace ',' = false by decide)]; rfl, by simp⟩⟩
 
 /-- An `Extant` item (nothing is printed for it) in `StartOrNl` / `AfterSep`, after any white space. -/
 theorem item_extant (req : Bool) (hreq : req = false → r ≠ .nil) {w : List Char} (hww : White w) :
@@ -368,7 +376,7 @@ theorem slot_value {n : Nat} (ih : RH n) (st : Style) (v : Value) (r : Items) (h
     exact (slot_extant ih st r hrs hrw k j i br below hS rest he (skipSpaces_spaces (pad_spaces st) _)).mono (by omega)
   · obtain ⟨c, t, hc, hok⟩ := head_value' st j hvw hve
     obtain ⟨td, tne, te⟩ := tail_facts ih st r hrs hrw k j i br below hS rest he
-    obtain ⟨rest', hsk, hrun⟩ := ih.elem v hvs hvw hve st j (.body k .slot) below _ (itemStart_slot k) td tne (fun _ => te)
+    obtain ⟨rest', hsk, hrun⟩ := ih.elem v hvs hvw hve st j (.body k .slot) below _ (itemStart_slot k) td tne te
     have ha := after_item ih st r hrs hrw k j i br below hS rest he false hsk
     simp only [Bool.false_eq_true, ↓reduceIte] at ha
     have := (hrun.trans ha).mono (show 4 * v.size + (4 * r.size + 4) ≤ 4 * v.size + 4 * r.size + 4 by omega)
@@ -408,7 +416,7 @@ theorem items_step {n : Nat} (ih : RH n) (its : Items) (hs : its.size ≤ n + 1)
     · obtain ⟨c, t, hc, hok⟩ := head_value' st j hw.1 hve
       obtain ⟨f1, _⟩ := okStart_facts hok k
       obtain ⟨td, tne, te⟩ := tail_facts ih st r (by omega) hw.2 k j i br below hS rest he
-      obtain ⟨rest', hsk, hrun⟩ := ih.elem v (by omega) hw.1 hve st j _ below _ (itemStart_req k req) td tne (fun _ => te)
+      obtain ⟨rest', hsk, hrun⟩ := ih.elem v (by omega) hw.1 hve st j _ below _ (itemStart_req k req) td tne te
       rw [afterOf_req] at hrun
       have ha := after_item ih st r (by omega) hw.2 k j i br below hS rest he true hsk
       simp only [↓reduceIte] at ha
@@ -435,7 +443,7 @@ theorem items_step {n : Nat} (ih : RH n) (its : Items) (hs : its.size ≤ n + 1)
       have td : TokEnd (':' :: (pad st ++ (printV st j v ++ (printItems st j i false br r ++ (e ++ k.close :: rest))))) := by
         intro x hx; simp at hx; subst hx; decide
       obtain ⟨rest', hsk, hrun⟩ := ih.elem key (by omega) hkw hke st j _ below _ (itemStart_req k req) td (by simp)
-        (by intro _; simp [skipSpaces_cons c2, endsRecord])
+        ⟨':', _, by simp [skipSpaces_cons c2]; rfl, by simp⟩
       rw [afterOf_req] at hrun
       have hcol := (Run.of_step (step_colon_after k below
         (pad st ++ (printV st j v ++ (printItems st j i false br r ++ (e ++ k.close :: rest)))))).congr
@@ -672,5 +680,227 @@ theorem attr_one {n : Nat} (ih : RH n) (nm : List Char) (v : Value) (hvs : v.siz
       have hdec := implicit_printed ih nm v hvs hvw hve hnf st i more hm
       refine (((Run.of_step hstep).trans hit).mono (by omega)).cast rfl ?_
       simp [obsEmits, emits, obsOf, hdec, obsB_bodyItems v hve, kindEndEvent]
+
+end SwimVerif.ReconEq
+
+namespace SwimVerif.ReconEq
+open SwimVerif.Recon
+
+theorem attrFollow_head {tail : List Char} (h : AttrFollow' tail) : ∀ x ∈ tail.head?, isIdentChar x = false ∧ x ≠ '(' := by
+  intro x hx
+  rcases h x hx with rfl | rfl | rfl | rfl | rfl | rfl | rfl <;> decide
+
+/-- The text after an attribute (the remaining attributes, then `tail`) starts with a character that ends its name. -/
+theorem more_head (st : Style) (i : Nat) (r : Attrs) {tail : List Char} (hfol : AttrFollow' tail) (ht : tail ≠ []) :
+    ((if r.isEmpty = true then [] else pad st ++ printAttrs st i r) ++ tail) ≠ [] ∧
+    ∀ x ∈ ((if r.isEmpty = true then [] else pad st ++ printAttrs st i r) ++ tail).head?, isIdentChar x = false ∧ x ≠ '(' := by
+  cases r with
+  | nil =>
+    simp only [Attrs.isEmpty, ↓reduceIte, List.nil_append]
+    exact ⟨ht, attrFollow_head hfol⟩
+  | cons n2 v2 r2 =>
+    simp only [Attrs.isEmpty, Bool.false_eq_true, ↓reduceIte]
+    rw [printAttrs_cons']
+    cases st <;> simp [pad] <;> decide
+
+theorem attrs_step {n : Nat} (ih : RH n) (r : Attrs) (hs : r.size ≤ n + 1) (hw : r.wf = true) (st : Style) (i : Nat)
+    (B : List PS) (tail : List Char) (hfol : AttrFollow' tail) (ht : tail ≠ []) :
+    Run (.afterAttr :: B) ((if r.isEmpty = true then [] else pad st ++ printAttrs st i r) ++ tail) (obsA r)
+      (.afterAttr :: B) tail (4 * r.size) := by
+  cases r with
+  | nil =>
+    simp only [Attrs.isEmpty, ↓reduceIte, List.nil_append, obsA]
+    exact (Run.refl _ _).mono (by omega)
+  | cons n2 v2 r2 =>
+    simp only [Attrs.size] at hs
+    simp only [Attrs.wf, Bool.and_eq_true] at hw
+    simp only [Attrs.isEmpty, Bool.false_eq_true, ↓reduceIte, List.append_assoc]
+    refine Run.congr ?_ (skipSpaces_spaces (pad_spaces st) _)
+    rw [printAttrs_cons']
+    simp only [List.cons_append, List.append_assoc]
+    obtain ⟨hm1, hm2⟩ := more_head st i r2 hfol ht
+    have h1 := attr_one ih n2 v2 (by omega) hw.1 st i false .afterAttr B (attrCtx_afterAttr B) _ hm1 hm2
+    have h2 := ih.attrs r2 (by omega) hw.2 st i B tail hfol ht
+    simp only [attrBase, Bool.false_eq_true, ↓reduceIte] at h1
+    refine ((h1.trans h2).mono (by simp [Attrs.size]; omega)).cast rfl ?_
+    rw [obsA_cons]
+    try simp
+
+/-- The token-ending characters, as the first character after a record's attributes. -/
+theorem tokEnd_follow {rest : List Char} (hd : TokEnd rest) : AttrFollow' rest := by
+  intro x hx
+  rcases tokEnd_cases (hd x hx) with h | h | h | h | h | h <;> simp [h]
+
+theorem lexAttr_not_at {c : Char} (hc : c ≠ '@') (t : List Char) : lexAttr (c :: t) = .err := by
+  simp [lexAttr, hc]
+
+theorem attrStep_not_at (primary : Bool) (cur : PS) (B : List PS) {c : Char} (hc : c ≠ '@') (t : List Char) :
+    attrStep primary cur B (c :: t) = .err := by
+  simp [attrStep, lexAttr_not_at hc]
+
+/-- The opening brace of a record body after its attributes. -/
+theorem step_afterAttr_brace (B : List PS) {p : List Char} (hp : Spaces p) (t : List Char) :
+    step (.afterAttr :: B) (p ++ '{' :: t) = .ok [.startBody] false (.body .rb .startOrNl :: B) t := by
+  rw [step_spaces _ hp]
+  simp [step, skipSpaces_cons (show isSpace '{' = false by decide), stepAfterAttr,
+    lexPrimM_not_start true (show primStart '{' = false by decide), attrStep_not_at false .afterAttr B (show ('{' : Char) ≠ '@' by decide)]
+
+/-- A record without a body ends where a terminator follows its attributes. -/
+theorem step_afterAttr_end {cur : PS} (hc : ItemStart cur) (below : List PS) {rest : List Char} (hr : RecEnd rest) :
+    ∃ x xs, skipSpaces rest = x :: xs ∧
+      step (.afterAttr :: cur :: below) rest = .ok [.startBody, .endRecord] false (afterOf cur :: below) (x :: xs) := by
+  obtain ⟨x, xs, hsk, hx⟩ := hr
+  refine ⟨x, xs, hsk, ?_⟩
+  have hps : primStart x = false := by rcases hx with rfl | rfl | rfl | rfl | rfl <;> decide
+  have hat : x ≠ '@' := by rcases hx with rfl | rfl | rfl | rfl | rfl <;> decide
+  have hbr : x ≠ '{' := by rcases hx with rfl | rfl | rfl | rfl | rfl <;> decide
+  have hpk : peekTerminator (x :: xs) = .ok () (x :: xs) := by
+    rcases hx with rfl | rfl | rfl | rfl | rfl <;> simp [peekTerminator, sep_comma, lineEndM] <;> decide
+  unfold step
+  rw [hsk]
+  simp only [stepAfterAttr, lexPrimM_not_start true hps, attrStep_not_at false .afterAttr (cur :: below) hat, hpk,
+    popAfterItem_itemStart hc]
+  split
+  · rename_i heq; simp only [List.cons.injEq] at heq; exact absurd heq.1 hbr
+  · rfl
+
+theorem elem_step {n : Nat} (ih : RH n) (v : Value) (hs : v.size ≤ n + 1) (hw : v.wf = true) (hne : v ≠ .extant)
+    (st : Style) (i : Nat) (cur : PS) (below : List PS) (rest : List Char) (hcur : ItemStart cur) (hd : TokEnd rest)
+    (hrne : rest ≠ []) (hre : RecEnd rest) :
+    ∃ rest', skipSpaces rest' = skipSpaces rest ∧
+      Run (cur :: below) (printV st i v ++ rest) (obsV v) (afterOf cur :: below) rest' (4 * v.size) := by
+  have hsz : 1 ≤ v.size := by cases v <;> simp [Value.size] <;> omega
+  have prim : ∀ {x : Value}, x.isPrim = true → x.wf = true →
+      Run (cur :: below) (printV st i x ++ rest) (obsV x) (afterOf cur :: below) rest 1 := by
+    intro x hp hxw
+    rw [printV_prim_style st i hp]
+    obtain ⟨c, t, hc, hps⟩ := head_prim i hp hxw
+    have hl := lexPrimM_printed true i hp hxw hd (fun _ => hrne)
+    have hstep : step (cur :: below) (printV .compact i x ++ rest) = .ok [primEv x] false (afterOf cur :: below) rest := by
+      rw [hc] at hl ⊢
+      simp only [List.cons_append] at hl ⊢
+      rw [step_value hcur below (okStart_of_prim hps)]
+      simp [valueStep, hl]
+    refine (Run.of_step hstep).cast rfl ?_
+    rw [obsV_prim hp, obsEmits_plain _ _ _ (by intro e he; simp at he; subst he; cases x <;> simp [Value.isPrim] at hp <;> rfl)]
+    rfl
+  cases v with
+  | extant => exact absurd rfl hne
+  | float x => exact ⟨rest, rfl, (prim rfl hw).mono (by omega)⟩
+  | int k m => exact ⟨rest, rfl, (prim rfl hw).mono (by omega)⟩
+  | bool b => exact ⟨rest, rfl, (prim rfl hw).mono (by omega)⟩
+  | text s => exact ⟨rest, rfl, (prim rfl hw).mono (by omega)⟩
+  | data bs => exact ⟨rest, rfl, (prim rfl hw).mono (by omega)⟩
+  | record a its =>
+    simp only [Value.size] at hs
+    simp only [Value.wf, Bool.and_eq_true, Bool.not_eq_true', Bool.or_eq_true] at hw
+    obtain ⟨⟨⟨haw, hiw⟩, hnse⟩, hsole⟩ := hw
+    cases a with
+    | nil =>
+      refine ⟨rest, rfl, ?_⟩
+      rw [printV_record_nil']
+      simp only [List.cons_append, List.append_assoc, List.nil_append]
+      have h1 : step (cur :: below) ('{' :: (startBlock st i its.length ++ (printItems st (inner st i its.length) i true true its ++
+          ((if its.length = 0 then [] else endBlock st i) ++ '}' :: rest))))
+          = .ok [.startBody] false (.body .rb .startOrNl :: cur :: below)
+              (startBlock st i its.length ++ (printItems st (inner st i its.length) i true true its ++
+                ((if its.length = 0 then [] else endBlock st i) ++ '}' :: rest))) := by
+        rw [step_value hcur below (by decide)]
+        simp [valueStep, lexPrimM_not_start true (show primStart '{' = false by decide),
+          attrStep_not_at true cur below (show ('{' : Char) ≠ '@' by decide)]
+      have h2 := ih.items its (by simp [Attrs.size] at hs; omega) hiw st .rb (inner st i its.length) i true (cur :: below)
+        (afterOf cur :: below) rest false (startBlock st i its.length) (if its.length = 0 then [] else endBlock st i)
+        (startBlock_white st i _) (endBlockOpt_endw st i _) (popAfterItem_itemStart hcur below) (fun _ => hnse)
+        (by intro h; cases h)
+      simp only [Bool.false_eq_true, ↓reduceIte, Kind.close] at h2
+      refine (((Run.of_step h1).trans h2).mono (by simp [Value.size, Attrs.size]; omega)).cast rfl ?_
+      simp [obsEmits, emits, obsOf, obsV, obsA, kindEndEvent]
+    | cons nm w r =>
+      simp only [Attrs.size] at hs
+      simp only [Attrs.wf, Bool.and_eq_true] at haw
+      rw [printV_record_cons', printAttrs_cons']
+      simp only [List.cons_append, List.append_assoc]
+      -- the three parts: first attribute, remaining attributes, body
+      have key : ∀ (tail rest' : List Char) (Ob : List (Event × Bool)) (Kb : Nat), AttrFollow' tail → tail ≠ [] →
+          Run (.afterAttr :: cur :: below) tail Ob (afterOf cur :: below) rest' Kb → Kb ≤ 4 * its.size + 4 →
+          Run (cur :: below)
+            ('@' :: (attrName nm ++ (printA st i w ++ ((if r.isEmpty = true then [] else pad st ++ printAttrs st i r) ++ tail))))
+            (obsA (.cons nm w r) ++ Ob) (afterOf cur :: below) rest' (4 * (1 + (2 + w.size + r.size) + its.size)) := by
+        intro tail rest' Ob Kb hfol htne hbody hKb
+        obtain ⟨hm1, hm2⟩ := more_head st i r hfol htne
+        have h1 := attr_one ih nm w (by omega) haw.1 st i true cur below (attrCtx_item hcur below) _ hm1 hm2
+        have h2 := ih.attrs r (by omega) haw.2 st i (cur :: below) tail hfol htne
+        simp only [attrBase, ↓reduceIte] at h1
+        refine (((h1.trans h2).trans hbody).mono (by omega)).cast rfl ?_
+        rw [obsA_cons]
+        try simp
+      by_cases h0 : its.length = 0
+      · have hnil : its = .nil := by cases its <;> simp [Items.length] at h0 <;> rfl
+        subst hnil
+        simp only [Items.length, ↓reduceIte, List.nil_append]
+        obtain ⟨x, xs, hsk, hstep⟩ := step_afterAttr_end hcur below hre
+        refine ⟨x :: xs, by rw [← hsk, skipSpaces_idem], ?_⟩
+        have hb := (Run.of_step hstep).cast rfl (obsEmits_plain _ _ _ (by simp [Event.isStartAttr]))
+        have := key rest (x :: xs) _ 1 (tokEnd_follow hd) hrne hb (by omega)
+        refine this.cast rfl ?_
+        simp [obsV, obsI, plain]
+      · by_cases h1 : its.isSoleVal = true
+        · simp only [h0, ↓reduceIte, h1]
+          cases its with
+          | nil => simp [Items.length] at h0
+          | slot _ _ _ => simp [Items.isSoleVal] at h1
+          | val x xs =>
+            cases xs with
+            | val _ _ => simp [Items.isSoleVal] at h1
+            | slot _ _ _ => simp [Items.isSoleVal] at h1
+            | nil =>
+              have hxp : x.isPrim = true := by
+                rcases hsole with h | h
+                · rcases h with h | h
+                  · simp [Attrs.isEmpty] at h
+                  · simp [Items.isSoleVal] at h
+                · simpa [Items.isSolePrim] using h
+              have hxw : x.wf = true := by simp only [Items.wf, Bool.and_eq_true] at hiw; exact hiw.1
+              simp only [printItems, ↓reduceIte, List.nil_append, List.append_nil]
+              rw [printV_prim_style st i hxp]
+              obtain ⟨c, t, hc, hps⟩ := head_prim i hxp hxw
+              have hl := lexPrimM_printed true i hxp hxw hd (fun _ => hrne)
+              have hstep : step (.afterAttr :: cur :: below) (' ' :: (printV .compact i x ++ rest))
+                  = .ok [.startBody, primEv x, .endRecord] false (afterOf cur :: below) rest := by
+                have hsp : Spaces [' '] := by intro y hy; simp at hy; exact hy
+                have := step_spaces (.afterAttr :: cur :: below) hsp (printV .compact i x ++ rest)
+                simp only [List.cons_append, List.nil_append] at this
+                rw [this]
+                rw [hc] at hl ⊢
+                simp only [List.cons_append] at hl ⊢
+                obtain ⟨_, f2, _⟩ := okStart_facts (okStart_of_prim hps) .rb
+                simp [step, skipSpaces_cons f2, stepAfterAttr, hl, popAfterItem_itemStart hcur]
+              refine ⟨rest, rfl, ?_⟩
+              have hb := (Run.of_step hstep).cast rfl (obsEmits_plain _ _ _ (by
+                intro e he; simp at he
+                rcases he with rfl | rfl | rfl
+                · rfl
+                · cases x <;> simp [Value.isPrim] at hxp <;> rfl
+                · rfl))
+              have := key _ rest _ 1 (by intro y hy; simp at hy; simp [← hy]) (by simp) hb (by omega)
+              refine this.cast (by simp) ?_
+              simp [obsV, obsI, plain, obsV_prim hxp]
+        · simp only [h0, ↓reduceIte, h1, Bool.false_eq_true]
+          refine ⟨rest, rfl, ?_⟩
+          have hfol : AttrFollow' (pad st ++ '{' :: (startBlock st i its.length ++
+              (printItems st (inner st i its.length) i true true its ++ (endBlock st i ++ ['}'])) ++ rest)) := by
+            cases st <;> (intro y hy; simp [pad] at hy; simp [← hy])
+          have hb1 := Run.of_step (step_afterAttr_brace (cur :: below) (pad_spaces st)
+            (startBlock st i its.length ++ (printItems st (inner st i its.length) i true true its ++
+              (endBlock st i ++ '}' :: rest))))
+          have hb2 := ih.items its (by omega) hiw st .rb (inner st i its.length) i true
+            (cur :: below) (afterOf cur :: below) rest false (startBlock st i its.length) (endBlock st i)
+            (startBlock_white st i _) (endBlock_endw st i) (popAfterItem_itemStart hcur below) (fun _ => hnse)
+            (by intro h; cases h)
+          simp only [Bool.false_eq_true, ↓reduceIte, Kind.close] at hb2
+          have hb := hb1.trans hb2
+          have := key _ rest _ _ hfol (by cases st <;> simp [pad]) (hb.cast (by simp) rfl) (by omega)
+          refine this.cast (by simp) ?_
+          simp [obsV, obsEmits, emits, obsOf, kindEndEvent]
 
 end SwimVerif.ReconEq
